@@ -88,11 +88,21 @@ CLAIMED = {
              "/ undecodable byte, never a panic or a loop; reading a command consumes at least one character and executing one "
              "reads nothing, so the main loop with all its sub-loops (digit arguments, key sequences, paste, completion, pager, "
              "incremental search) terminates on its own: with more fuel than input it never runs dry, hence a read never ends "
-             "in OutOfFuel (the model-level statement of 'no input can wedge a read'); Undo never panics in a reachable state. "
-             "PARTIAL: panic-freedom of the remaining commands, the select/poll path with a printer, resizes and stop/continue "
-             "are decided by the junk stream on the real back end (catch_unwind, stall detection, a result for every read).",
-        note=TTY_NOTE + "Runtime behaviour (signals, unsafe, kernel) is exercised, not modelled.",
-        technique="Coq proof: progress calculus over the editor monad (input size non-increasing / decreasing, fuel bounded by input) with fuel induction for all nine loops; totality calculus for the decoder; extracted-model differential check on junk input through a pty + crash/stall oracle"),
+             "in OutOfFuel (the model-level statement of 'no input can wedge a read'). NO PANIC: J = cursor on a character "
+             "boundary, undo stack a valid edit script, kill ring consistent, saved line valid, buffer growable. "
+             "(a) C17_execute_never_panics: from any state with J, executing ANY command (every Movement, count, word "
+             "definition; kills, yanks, transposes, case changes, indent, history moves and searches, undo, accept) never reaches "
+             "a Panic of the model and re-establishes J (a yank-pop needs the remembered yank to end at the cursor); "
+             "(b) C17_next_cmd_never_panics: reading the next command (decoder, Emacs / vi keymaps, digit arguments, bindings, "
+             "repeat) never panics, keeps J and touches neither line nor kill ring; (c) every LineBuffer operation is total "
+             "(C03_all_total_wf); the initial state has J. PARTIAL: the composition over a whole read is not a theorem -- the "
+             "attempt showed why: known finding K9 (an Alt key inside a vi search pops the search's undo marker) breaks the undo "
+             "invariant, so J is NOT an invariant of every read; the sub-loops (completion with a user-supplied completer, search), "
+             "the select/poll path with a printer, resizes and stop/continue are decided by the junk / long streams on the real "
+             "back end (catch_unwind, stall detection, a result for every read). The proof attempts found F19, F20, F21 (panics, "
+             "repaired) and K9.",
+        note=TTY_NOTE + "Runtime behaviour (signals, unsafe, kernel) is exercised, not modelled; debug_assert! conditions of the layout are not modelled.",
+        technique="Coq proof: progress calculus over the editor monad (input size non-increasing / decreasing, fuel bounded by input) with fuel induction for all nine loops; totality calculus for the decoder; invariant-preservation calculus (no Panic + J) over every command and the whole keymap, resting on the totality of every line-buffer operation; extracted-model differential check on junk input through a pty + crash/stall oracle"),
     "C16": dict(
         text="PARTIAL by construction. Theorem over a deliberately small model of readline_with and its restoring Guard (terminal "
              "settings opaque, the editing loop ANY function that writes ordinary output and ends as line / end-of-file / interrupt "
